@@ -611,3 +611,124 @@ func init() {
 }
 
 func f0(n int) string { return strings.Repeat("s", n) }
+
+// ---------------------------------------------------------------- sequences of lookups on one node
+
+func (s *sgen) seqKeyStep(kind string, path ...string) string { return kind + strings.Join(path, "/") }
+
+func init() {
+	// c14.seq: an object (or array) with 3, 16, 17, 40 ... members; one root node; a sequence of
+	// lookups (existing, missing, existing again, last, by index, nested, after a full load) whose
+	// answers must each be the addressed value whatever was looked up before.
+	registerGen("c14.seq", func(g *Gen) {
+		sizes := []int{3, 16, 17, 40, 2, 15, 18, 33, 100}
+		kp := func(k string) string { return "k:" + hexArg([]byte(k)) }
+		for i := 0; i < g.N; i++ {
+			s := &sgen{g: g, ws: g.R.Intn(3)}
+			n := sizes[i%4]
+			if i%3 == 2 {
+				n = sizes[g.R.Intn(len(sizes))]
+			}
+			var steps []string
+			var doc string
+			if i%5 == 4 {
+				// array root
+				v := &sjv{kind: '['}
+				for j := 0; j < n; j++ {
+					v.elems = append(v.elems, s.value(1, 3))
+				}
+				doc = s.doc(v)
+				idx := func(j int) string { return "i:" + itoa(j) }
+				a, b := g.R.Intn(n), g.R.Intn(n)
+				steps = []string{"g" + idx(a), "c" + idx(b), "g" + idx(n + g.R.Intn(2)), "g" + idx(a), "c" + idx(b), "g" + idx(n-1), "g" + idx(0)}
+				if g.R.Intn(2) == 0 {
+					steps = append(steps, string("LMIN"[g.R.Intn(4)]), "g"+idx(a), "c"+idx(n-1))
+				}
+			} else {
+				v := s.bigObject(n, 1)
+				prefix := []string{}
+				doc = s.doc(v)
+				if i%7 == 3 {
+					doc = `{"pad":[1,2],"obj":` + doc + `,"z":0}`
+					prefix = []string{kp("obj")}
+				}
+				key := func(j int) string { return strings.Join(append(append([]string{}, prefix...), kp(v.keys[j])), "/") }
+				miss := strings.Join(append(append([]string{}, prefix...), kp("no_such_key")), "/")
+				a, b := g.R.Intn(n), g.R.Intn(n)
+				switch g.R.Intn(4) {
+				case 0: // the canonical sequence: found, found, miss (forces the full load), found again, last
+					steps = []string{"g" + key(a), "g" + key(b), "g" + miss, "g" + key(a), "g" + key(b), "g" + key(n-1)}
+				case 1: // last key first (full load through a hit), then earlier ones
+					steps = []string{"c" + key(a), "g" + key(n-1), "g" + key(a), "c" + key(0), "g" + miss, "c" + key(b)}
+				case 2: // a conversion / iteration / Len in between
+					steps = []string{"g" + key(a), string("LMIN"[g.R.Intn(4)]), "g" + key(a), "g" + key(b), "g" + miss, "g" + key(a)}
+				default:
+					m := 4 + g.R.Intn(6)
+					for t := 0; t < m; t++ {
+						switch g.R.Intn(7) {
+						case 0:
+							steps = append(steps, "g"+miss)
+						case 1:
+							steps = append(steps, string("LMIN"[g.R.Intn(4)]))
+						case 2:
+							steps = append(steps, "c"+key(g.R.Intn(n)))
+						case 3:
+							steps = append(steps, "g"+key(a))
+						default:
+							steps = append(steps, "g"+key(g.R.Intn(n)))
+						}
+					}
+					steps = append(steps, "g"+key(a))
+				}
+				// one nested step below a member that is a container
+				for j, e := range v.elems {
+					firstOcc := true
+					for jj := 0; jj < j; jj++ {
+						if v.keys[jj] == v.keys[j] {
+							firstOcc = false
+						}
+					}
+					if firstOcc && e.kind == '[' && len(e.elems) > 0 {
+						steps = append(steps, "g"+key(j)+"/i:"+itoa(g.R.Intn(len(e.elems))), "g"+key(j)+"/i:"+itoa(len(e.elems)))
+						break
+					}
+				}
+			}
+			if !utf8.ValidString(doc) {
+				continue
+			}
+			g.Emit("c14seq", hexArg([]byte(doc)), strings.Join(steps, ";"))
+		}
+	})
+
+	// c14.wide: Preorder over documents that are WIDE but shallow (more than MAX_RECURSE sibling empty
+	// arrays / empty objects / small containers at real depth <= 5), and the nesting boundary itself
+	registerGen("c14.wide", func(g *Gen) {
+		const n = 4200
+		var sb strings.Builder
+		emit := func(doc string) { g.Emit("pre", hexArg([]byte(doc))) }
+		rep := func(item func(i int) string) string {
+			sb.Reset()
+			for i := 0; i < n; i++ {
+				if i > 0 {
+					sb.WriteByte(',')
+				}
+				sb.WriteString(item(i))
+			}
+			return sb.String()
+		}
+		emit(`{"items":[` + rep(func(i int) string { return `{"id":` + itoa(i) + `,"tags":[],"attrs":{}}` }) + `]}`)
+		emit(`[` + rep(func(i int) string { return `[]` }) + `]`)
+		emit(`[` + rep(func(i int) string { return `{}` }) + `]`)
+		emit(`[` + rep(func(i int) string { return `[ ]` }) + `,{ }]`)
+		emit(`{"a":[` + rep(func(i int) string { return `[` + itoa(i) + `]` }) + `]}`)
+		emit(`[[` + rep(func(i int) string { return `{"k":[[]]}` }) + `]]`)
+		emit(`{` + rep(func(i int) string { return `"k` + itoa(i) + `":{}` }) + `}`)
+		for _, d := range []int{4095, 4096, 4097, 4100} {
+			emit(strings.Repeat("[", d) + strings.Repeat("]", d))
+			emit(strings.Repeat(`{"a":`, d) + "1" + strings.Repeat("}", d))
+		}
+		emit(strings.Repeat("[", 4095) + "[],{},[1]" + strings.Repeat("]", 4095))
+		emit(strings.Repeat("[", 4096) + "[]" + strings.Repeat("]", 4096))
+	})
+}
